@@ -51,6 +51,11 @@ def hCloser : Handler := fun _ ps b =>
   ⟨[⟨200, true, List.replicate n 0x78⟩], b, true⟩
 def hErr : Handler := fun _ _ b => ⟨[], b, false⟩
 def hSilent : Handler := fun _ _ b => ⟨[], b, true⟩
+/-- `/continue`: interim 100 first, then the body is read and echoed -/
+def hContinue : Handler := fun _ _ b =>
+  match readAll b with
+  | (some body, b') => ⟨[⟨100, false, []⟩, ok200 body], b', true⟩
+  | (none, b') => ⟨[⟨100, false, []⟩], b', false⟩
 def hBigr : Handler := fun _ ps b =>
   let n := ((param ps "n").bind natOfBytes).getD 0
   ⟨[ok200 (List.replicate n 0x78)], b, true⟩
@@ -73,8 +78,10 @@ def harnessCfg (max : Nat) : Cfg :=
     routes := [(.post, str "/echo"), (.post, str "/noread"), (.post, str "/read/:k"), (.post, str "/early"),
                (.post, str "/swallow"), (.get, str "/close"), (.get, str "/err"), (.get, str "/bigr/:n"),
                (.get, str "/p/:a/:b"), (.get, str "/errint"), (.get, str "/closeempty/:how"), (.get, str "/closer/:n"),
-               (.get, str "/silent"), (.get, str "/errkind/:k")]
-    handler := fun i => [hEcho, hNoread, hReadK, hEarly, hSwallow, hClose, hErr, hBigr, hP, hErr, hCloseEmpty, hCloser, hSilent, hErr].getD i hFallback
+               (.get, str "/silent"), (.get, str "/errkind/:k"),
+               (.get, str "/gecho"), (.put, str "/gecho"), (.delete, str "/gecho"), (.post, str "/continue")]
+    handler := fun i => [hEcho, hNoread, hReadK, hEarly, hSwallow, hClose, hErr, hBigr, hP, hErr, hCloseEmpty, hCloser, hSilent, hErr,
+                         hEcho, hEcho, hEcho, hContinue].getD i hFallback
     fallback := hFallback }
 
 def showResp (r : Resp) : String := s!"R{r.status}:{if r.close then 1 else 0}:{hex r.body}"
